@@ -260,6 +260,41 @@ fn run_dir(c: &DirCase, sink: &mut Sink) -> (Verdict, Option<u64>, Value) {
             return (Verdict::viol(format!("failed-although-path-opens|gz={}", gz), format!("get({:?}) failed with {:?}, the path names {:?}", show(&c.path), e, want.id())), None, desc);
         }
     }
+    // the node's file, as an entity: its bytes must be the bytes of the file the path names (every
+    // file of the tree contains its own absolute path)
+    if let (Ok(node), Ok((_, gz))) = (r, &expected) {
+        if node.metadata().is_file() {
+            let full = format!("{}/{}{}", t.base.display(), path, if *gz { ".gz" } else { "" });
+            if let Ok(want) = std::fs::read(&full) {
+                let got = crate::util::catch(|| -> Result<Vec<u8>, String> {
+                    use http_serve::Entity;
+                    let e: http_serve::ChunkedReadFile<bytes::Bytes, crate::ent::BoxError> = node.into_file_entity(http::HeaderMap::new()).map_err(|e| e.to_string())?;
+                    let len = e.len();
+                    let mut s = e.get_range(0..len);
+                    let w = std::task::Waker::from(Arc::new(crate::bodymon::CountWaker(std::sync::atomic::AtomicU64::new(0))));
+                    let mut cx = std::task::Context::from_waker(&w);
+                    let mut out = Vec::new();
+                    for _ in 0..10_000 {
+                        match futures_core::Stream::poll_next(s.as_mut(), &mut cx) {
+                            std::task::Poll::Ready(Some(Ok(d))) => out.extend_from_slice(&d),
+                            std::task::Poll::Ready(Some(Err(e))) => return Err(e.to_string()),
+                            std::task::Poll::Ready(None) => return Ok(out),
+                            std::task::Poll::Pending => {}
+                        }
+                    }
+                    Err("no end within 10000 polls".into())
+                });
+                match got {
+                    Ok(Ok(g)) if g == want => sink.count("entity_bytes_verified"),
+                    Ok(Ok(g)) => {
+                        return (Verdict::viol(format!("entity-bytes|gz={}", gz), format!("into_file_entity of get({:?}) yields {:?}, the file the path names contains {:?}", show(&c.path), show(&g[..g.len().min(80)]), show(&want[..want.len().min(80)]))), None, desc);
+                    }
+                    Ok(Err(e)) => return (Verdict::viol(format!("entity-failed|gz={}", gz), format!("into_file_entity / get_range on the regular file named by {:?} failed: {}", show(&c.path), e)), None, desc),
+                    Err(p) => return (Verdict::viol(format!("panic@{}", norm_loc(&p)), format!("into_file_entity of get({:?}) panicked: {}", show(&c.path), p)), None, desc),
+                }
+            }
+        }
+    }
     (Verdict::Ok, Some(hash64(c)), desc)
 }
 
@@ -332,7 +367,7 @@ impl Prop for C19 {
         "exploration"
     }
     fn rule(&self, ctx: &Ctx) -> String {
-        format!("exhaustive: every path of <= {} segments over {{a, sub, .., ., ..., ..a, a.., empty, secret}} joined by '/', with and without a leading slash (trailing slashes = empty last segment), plus names around the .gz logic (file with sibling, file without, sibling that is a directory, sibling that is a character device, empty sibling, .gz-only name, directory with a .gz file sibling); a NUL byte inserted at every position of 300 of them; x Accept-Encoding {{absent, gzip, identity, gzip;q=0, *, gzip;q=0.5 vs identity;q=0.6}} x auto_gzip on/off; on a real tree with a 'secret' file next to the base directory. Oracle: in-memory POSIX relative-path resolver (self-checked against the kernel on every non-rejected path) giving the expected (dev, inode) or errno. Non-trivial = distinct (path, Accept-Encoding, auto_gzip) judged; descriptor count of the process must return to its baseline", max_segs(ctx))
+        format!("exhaustive: every path of <= {} segments over {{a, sub, .., ., ..., ..a, a.., empty, secret}} joined by '/', with and without a leading slash (trailing slashes = empty last segment), plus names around the .gz logic (file with sibling, file without, sibling that is a directory, sibling that is a character device, empty sibling, .gz-only name, directory with a .gz file sibling); a NUL byte inserted at every position of 300 of them; x Accept-Encoding {{absent, gzip, identity, gzip;q=0, *, gzip;q=0.5 vs identity;q=0.6}} x auto_gzip on/off; on a real tree with a 'secret' file next to the base directory. Oracle: in-memory POSIX relative-path resolver (self-checked against the kernel on every non-rejected path) giving the expected (dev, inode) or errno. Every regular file opened is also turned into an entity (`into_file_entity`) and read back: its bytes must be those of the file the path names (each file contains its own path). Non-trivial = distinct (path, Accept-Encoding, auto_gzip) judged; descriptor count of the process must return to its baseline", max_segs(ctx))
     }
     fn n_blocks(&self, _: &Ctx) -> usize {
         12 + 1 + 1
